@@ -150,6 +150,12 @@ def gen_api_cases(ctx, pools):
                             cases.append(G.Case("api-%s-%s-%s-%s" % (e, it, ot, lay), n, ch, rng.next(), 0, pats, it, "api"))
                             if ot == "i16":
                                 cases.append(G.Case("api-%s-%s-%s-%s-dith" % (e, it, ot, lay), n, ch, rng.next(), 0, pats, it, "api-dith"))
+                # the pull API: soxr_output requests that each need several rounds of an input function that supplies short pieces
+                for lay in ("ii", "is", "si", "ss"):
+                    for ch in (1, 2):
+                        for n in ((37, 150) if quick else (1, 16, 37, 150, 400)):
+                            pats = [rng.choice(pool) for _ in range(n * ch)]
+                            cases.append(G.Case("api-%s-%s-%s-%s-pull" % (e, it, ot, lay), n, ch, rng.next(), 0, pats, it, "api"))
                 # object histories: after soxr_clear (re-initialisation), and deferred initialisation through soxr_set_io_ratio
                 for hist in ("clr", "lazy"):
                     for ch in (1, 2):
